@@ -43,7 +43,32 @@ def gen_program(rng, depth, budget, prop):
     return acts
 
 
+def gen_family(rng):
+    """C11: a parent with two or three children that joins one of them while somebody stops the parent — a join that
+    unregisters a child races with the stop() that walks the parent's children"""
+    nk = rng.randint(2, 3)
+    prog = []
+    for i in range(nk):
+        kid = []
+        if rng.random() < 0.6:
+            kid.append(["wait_stop"])
+        kid.append(["ret", rng.randrange(len(VALUES))])
+        prog.append(["spawn", kid])
+    for _ in range(rng.randint(1, 2)):
+        prog.append(["join", rng.randrange(nk)])
+    if rng.random() < 0.5:
+        prog.append(["wait_stop"])
+    prog.append(["ret", 0])
+    main = [["spawn", prog], ["stop", 0] + ([rng.randint(0, nk)] if rng.random() < 0.6 else [])]
+    if rng.random() < 0.3:
+        main.append(["join", 0])
+    main.append(["main_stop"])
+    return {"main": main}
+
+
 def gen_scenario(rng, prop="C10"):
+    if prop == "C11" and rng.random() < 0.3:
+        return gen_family(rng)
     budget = [rng.randint(1, 7)]
     main = []
     k = 0
